@@ -63,7 +63,9 @@ fn scalar_case(fm: &Fam, t: f64, tol: f64, max_iter: usize, delta: f64, acc: &mu
         }
         (fm.f)(x)
     };
-    let mut nw = Newton::<f64>::new(x0);
+    // half of the cases configure the guess through the setter instead of the constructor
+    let mut nw = if max_iter % 2 == 0 { Newton::<f64>::new(x0) } else { Newton::<f64>::new(-99.0) };
+    nw.guess(x0);
     nw.tolerance(tol);
     nw.iterations(max_iter);
     nw.delta(delta);
@@ -546,9 +548,10 @@ fn explore_scripts(ctx: &Ctx, e: Entry, base: usize, max_iter: usize, dmax: usiz
                 if script.is_empty() && base % 3 < 2 && b1[0] == 1 {
                     fail("success reported on a root-free function".to_string(), st);
                 }
-                if matches!(e, Entry::F64 | Entry::Cmplx) && b1[0] == 1 && b1[1..].iter().any(|b| !f64::from_bits(*b).is_finite()) {
-                    fail(format!("success reported with a non-finite point {:?}", b1[1..].iter().map(|b| f64::from_bits(*b)).collect::<Vec<_>>()), st);
-                }
+                // NOTE: "a scalar Ok carries a finite point" is NOT judged on scripted runs: with two deviations a correct
+                // implementation can return Ok(-inf) (first step from a zero derivative sends the iterate to -inf, a later
+                // scripted answer 0 makes the step 0). That oracle raised a false alarm in the thorough tier and was removed;
+                // the NaN-step defect class is caught by the script-free runs started at 0 (root-free => Err).
                 if max_iter == 0 && b1[0] == 1 {
                     fail("success reported with max_iter = 0".to_string(), st);
                 }
@@ -578,7 +581,7 @@ fn explore_scripts(ctx: &Ctx, e: Entry, base: usize, max_iter: usize, dmax: usiz
 fn main() {
     let ctx = Ctx::from_args("C17");
     ctx.level("model_checking");
-    ctx.rule("E1 (convergence): 11 scalar real families with analytic roots (quadratic, cubic, exp, sin, x - cos x) x 9 guesses across a conservatively computed basin x tol in {1e-12..1e-4} x max_iter in {0,1,2,3,5,20,50} x delta in {1e-8,1e-6}; 5 complex scalar families x 9 guesses; real and complex systems F(x) = Dx + eps g(x) - b of dimension 1..6 with finite-difference and user-supplied Jacobians. Ok(x) => distance to the root <= 4 tol kappa + 1e-12; enough iterations (exact Newton count + 2) => Ok; Err carries the iterate after max_iter exact Newton steps; max_iter = 0 => Err(guess) bit for bit; evaluations <= 3 (scalar) / n+2 (systems) per iteration; parameters() unchanged; repeated calls bit-identical. E4 (termination): depth-first exploration of ALL answer scripts of the user closure - at every call position every answer in {0, NaN, +inf, 1e300, -default} - up to 1 (quick) / 2 (thorough) deviations, for all six entry points, max_iter 0..3, on root-free, non-differentiable and ordinary base functions started at 1.5 and at 0 (zero derivative / kink on the first step): the call returns, evaluation bound respected, root-free => Err, a scalar Ok carries a finite point, two runs of a script identical.");
+    ctx.rule("E1 (convergence): 11 scalar real families with analytic roots (quadratic, cubic, exp, sin, x - cos x) x 9 guesses across a conservatively computed basin x tol in {1e-12..1e-4} x max_iter in {0,1,2,3,5,20,50} x delta in {1e-8,1e-6}; 5 complex scalar families x 9 guesses; real and complex systems F(x) = Dx + eps g(x) - b of dimension 1..6 with finite-difference and user-supplied Jacobians. Ok(x) => distance to the root <= 4 tol kappa + 1e-12; enough iterations (exact Newton count + 2) => Ok; Err carries the iterate after max_iter exact Newton steps; max_iter = 0 => Err(guess) bit for bit; evaluations <= 3 (scalar) / n+2 (systems) per iteration; parameters() unchanged; repeated calls bit-identical. E4 (termination): depth-first exploration of ALL answer scripts of the user closure - at every call position every answer in {0, NaN, +inf, 1e300, -default} - up to 1 (quick) / 2 (thorough) deviations, for all six entry points, max_iter 0..3, on root-free, non-differentiable and ordinary base functions started at 1.5 and at 0 (zero derivative / kink on the first step): the call returns, evaluation bound respected, root-free => Err, two runs of a script identical.");
     ctx.assume("basins are computed conservatively from |f'(r)|/(2 max|f''|); a counting closure panics beyond 4x the evaluation bound so that an unbounded loop is reported, not waited for");
     ctx.threshold("scalar_root_error_over_bound", 1.0);
     ctx.threshold("system_root_error_over_bound", 1.0);
@@ -753,8 +756,7 @@ fn main() {
             acc.begin_case();
             match r {
                 Ok((bits, n)) => {
-                    let nonfinite = matches!(e, Entry::F64 | Entry::Cmplx) && bits[0] == 1 && bits[1..].iter().any(|b| !f64::from_bits(*b).is_finite());
-                    if nonfinite || n > eval_bound(e, mi) || (script.is_empty() && base % 3 < 2 && bits[0] == 1) || (mi == 0 && bits[0] == 1) {
+                    if n > eval_bound(e, mi) || (script.is_empty() && base % 3 < 2 && bits[0] == 1) || (mi == 0 && bits[0] == 1) {
                         acc.fail_extra(0, format!("{:?}", script), "bounded-work / failure-report oracle violated".into(), rp.extra.clone());
                     }
                 }
